@@ -75,6 +75,9 @@ theorem loop_step_decreases {s s' : State κ ν} {x : Item κ ν} {l : Label κ 
     · exact Or.inl hc
     · exact Or.inr ⟨⟨hreach', c1, c2, c3, c4⟩, c5, c6⟩
   have hpl : ∀ r ∈ s.q, (pop s.q r).length + 1 ≤ s.q.length := fun r hr => pop_length_lt hr
+  have hsat := fun d : Int => satDur_cases d
+  have hmax : (maxDur : Int) = 9223372036854775807 := rfl
+  have hmin : (minDur : Int) = -9223372036854775808 := rfl
   unfold InvB Covers at hB
   unfold InvR at hR
   unfold Timely
